@@ -71,7 +71,9 @@ class LocGen:
             return ("cd", r.choice([0, 1])) if r.random() < 0.7 else ("const", r.choice(KEY_DOM))
         # concrete indices stay below 2^16 - 3: halmos' reverse hash lookup only recognises hash + delta for
         # |delta| < 2^16 (known finding, probed separately); symbolic indices range over the whole domain
-        return ("cd", 2) if r.random() < 0.65 else ("const", r.choice([0, 1, 2, 2**16 - 4, 2**16 - 3]))
+        if r.random() < 0.65:
+            return ("cd", 2) if r.random() < 0.7 else ("cd", 1)
+        return ("const", r.choice([0, 1, 2, 2**16 - 4, 2**16 - 3]))
 
     def slot(self):
         r = self.r
@@ -90,7 +92,9 @@ class LocGen:
         if k < 0.47:
             return ("map2", self.slot(), self.keyref(), self.keyref())
         if k < 0.75:
-            return ("arr", self.slot(), self.keyref("idx"), r.choice([0, 0, 1, 2]))
+            # offset -1 models a[n-1] (solc folds it into the constant (keccak(slot)-1) + n)
+            offs = [0, 0, 1, 2, -1, -1] if self.layout == "solidity" else [0, 0, 1, 2]
+            return ("arr", self.slot(), self.keyref("idx"), r.choice(offs))
         if k < 0.88:
             return ("mapstruct", self.slot(), self.keyref(), r.choice([1, 2]))
         # packed keys are always symbolic here: halmos decodes keccak(bytesN(key) . slot) as a mapping only when the
@@ -160,8 +164,10 @@ class LocGen:
             words = (s,) if kind == "arr" else ((k[1], s) if k[0] == "const" else None)
             if base_c is not None and way < 0.45 and words is not None and self.const_ok(*words):
                 self.features.add("way:precomputed-constant")
-                folds = [0, c, -1] if self.layout == "solidity" else [0, c]
+                folds = [0, c, -1] if self.layout == "solidity" else [0, max(c, 0)]
                 fold = r.choice(folds) if r.random() < 0.6 else 0
+                if c < 0:
+                    fold = c  # a[n-1]: the negative offset is folded into the constant, nothing else is added
                 if fold:
                     self.features.add("way:constant-folded-base+offset")
                 parts.append([("push", (base_c + fold) & M, 32)])
@@ -220,7 +226,7 @@ def make_storage_case(rng, transient=False, overrides=None):
         if l0[0] == "map":
             locs.append(("map", l0[1], g.keyref()))
         elif l0[0] == "arr":
-            locs.append(("arr", l0[1], g.keyref("idx"), rng.choice([0, 1])))
+            locs.append(("arr", l0[1], g.keyref("idx"), rng.choice([0, 1] + ([-1] if g.layout == "solidity" else []))))
         elif l0[0] == "mapstruct":
             locs.append(("map", l0[1], l0[2]))
         elif l0[0] == "map2":
@@ -287,3 +293,42 @@ def concrete_slot(loc, cd):
     if kind == "packed":
         return Hbytes((val(loc[2]) & ((1 << 160) - 1)).to_bytes(20, "big") + loc[1].to_bytes(32, "big"))
     raise ValueError(loc)
+
+
+def make_transient_pair_case(rng, overrides=None):
+    """two accounts use transient (and persistent) storage at the same locations within one transaction
+    (the transaction is started through SEVM.run_message as the second transaction)"""
+    g = LocGen(rng, layout=(overrides or {}).get("storage_layout", "solidity"))
+    loc = g.logical()
+    loc2 = loc if rng.random() < 0.7 else g.logical()
+    B = 0x1100
+    # tokens are generated in *execution order* (caller prefix, callee, caller suffix) because the rule for using
+    # precomputed constants depends on which hashes were computed earlier on the path
+    a = []
+    nout = 0
+
+    def out(t):
+        nonlocal nout
+        o = 0x300 + 32 * nout
+        nout += 1
+        return t + [o, "MSTORE"]
+
+    a += [4, "CALLDATALOAD", 0xA1, "ADD"] + g.tokens(loc) + ["TSTORE"]
+    a += [4, "CALLDATALOAD", 0xA2, "ADD"] + g.tokens(loc) + ["SSTORE"]
+    a += [100, 0, 0x100, "CALLDATACOPY", 0x40, 0x180, 100, 0x100, 0, B, 0xFFFF, "CALL"]
+    a += [0x300 + 32 * nout, "MSTORE"]
+    nout += 1
+    # callee: returns its own TLOAD/SLOAD of loc2, then overwrites them
+    b = []
+    b += g.tokens(loc2) + ["TLOAD", 0x200, "MSTORE"]
+    b += g.tokens(loc2) + ["SLOAD", 0x220, "MSTORE"]
+    b += [0xB7] + g.tokens(loc2) + ["TSTORE"]
+    b += [0xB8] + g.tokens(loc2) + ["SSTORE"]
+    b += [0x40, 0x200, "RETURN"]
+    a += out([0x180, "MLOAD"]) + out([0x1A0, "MLOAD"])
+    a += out(g.tokens(loc) + ["TLOAD"]) + out(g.tokens(loc) + ["SLOAD"])
+    a += [32 * nout, 0x300, "RETURN"]
+    case = Case({0x1000: asm(a), B: asm(b)}, ncd=3, overrides=overrides or {}, label="transient-pair",
+                gen_features=sorted(g.features | {"transient-two-accounts"}), second_tx=(0x1000, 3) if rng.random() < 0.7 else None)
+    case.locs = [loc, loc2]
+    return case
